@@ -600,6 +600,11 @@ def gen_legacy_openssl(rng):
         return s + rng.choice(["0", "1", "5", "05", "10"])
     if r < 0.78:
         # digit right after the fix number followed by letters: rejected (`patch[0].isdigit()`)
+        if rng.random() < 0.5:
+            # a zero-padded third number before the letters: `1.0.05a` (the text names the base `1.0.0`,
+            # the value (1,0,5,'a') would print as `1.0.5a`, which names no base)
+            return (s[:-1] + "0" + rng.choice("123456789")
+                    + rng.choice(["a", "b", "zh", "-beta2", "-alpha1", "-pre1"]))
         return s + rng.choice(["0a", "2b", "1-beta1", "5a", "7-beta2", "9z", "05"])
     return s + rng.choice(["-beta1", "-beta2", "-beta3", "-alpha1", "-pre1", "-beta10", "-dev",
                            "-alpha", "-beta", "-betaX", "-", "A", "a1", "+a", "_1"])
